@@ -433,6 +433,20 @@ impl Gen {
             }
             (11, _) => Op::BackJump(1 + self.rng.below(5_000_000)),
             (12, Some(t)) | (13, Some(t)) | (14, Some(t)) => {
+                // a group member whose current partition is known: the request without a partition id
+                let known: Vec<((u32, u32, u32, u32), u32)> = model.member_current.iter().map(|(k, v)| (*k, *v)).collect();
+                if !known.is_empty() && self.rng.chance(0.5) {
+                    let ((sid, tid, gid, client_id), p) = *self.rng.pick(&known);
+                    if let Some(mc) = model.sessions.iter().position(|x| x.connected && x.client_id == Some(client_id)) {
+                        let current = model.streams.get(&sid).and_then(|x| x.topics.get(&tid)).and_then(|x| x.partitions.get(&p)).map(|pm| pm.current_offset()).unwrap_or(0);
+                        let (stream, topic, who) = (IdRef::Num(sid), IdRef::Num(tid), Who::Group(IdRef::Num(gid)));
+                        return match choice {
+                            12 => Op::StoreOffset { c: mc, stream, topic, partition: None, who, offset: self.rng.below(current + 1) },
+                            13 => Op::GetOffset { c: mc, stream, topic, partition: None, who },
+                            _ => Op::DeleteOffset { c: mc, stream, topic, partition: None, who },
+                        };
+                    }
+                }
                 let (s, tt) = self.refs(&t);
                 let tm = &model.streams[&t.0].topics[&t.1];
                 let n = tm.partitions.len() as u32;
